@@ -122,6 +122,56 @@ pub enum MatchCond {
     Never,
     NodeExists(u8),
     NodeHasType(u8, u8),
+    /// all preconditions hold (used in runtime mode, where an intent may run against a later
+    /// state than the one it was written for: like a real rule, it matches only if its
+    /// structural preconditions still hold)
+    Guarded(Vec<Pre>),
+}
+
+#[derive(Clone, Debug, PartialEq, Eq, Serialize, Deserialize)]
+pub enum Pre {
+    NodeExists(u8),
+    EdgeExists(u8),
+    EdgeIs { e: u8, from: u8 },
+    /// node has no incident edge except the listed ones
+    NodeIsolatedExcept { n: u8, edges: Vec<u8> },
+    NodeSlotNotPortal(u8),
+    EdgeSlotNotPortal(u8),
+}
+
+/// Structural preconditions under which the merged ops of `instrs` apply without error.
+pub fn preconds(instrs: &[Instr]) -> Vec<Pre> {
+    let mut out = Vec::new();
+    let upserted_nodes: BTreeSet<u8> = instrs.iter().filter_map(|i| if let Instr::UpsertNode { n, .. } = i { Some(*n) } else { None }).collect();
+    let upserted_edges: BTreeSet<u8> = instrs.iter().filter_map(|i| if let Instr::UpsertEdge { e, .. } = i { Some(*e) } else { None }).collect();
+    let deleted_edges: Vec<u8> = instrs.iter().filter_map(|i| if let Instr::DeleteEdge { e, .. } = i { Some(*e) } else { None }).collect();
+    for i in instrs {
+        match i {
+            Instr::DeleteEdge { e, from } => {
+                out.push(Pre::EdgeIs { e: *e, from: *from });
+                out.push(Pre::EdgeSlotNotPortal(*e));
+            }
+            Instr::DeleteNode { n } => {
+                out.push(Pre::NodeExists(*n));
+                out.push(Pre::NodeIsolatedExcept { n: *n, edges: deleted_edges.clone() });
+                out.push(Pre::NodeSlotNotPortal(*n));
+            }
+            Instr::SetNodeAtt { n, .. } => {
+                if !upserted_nodes.contains(n) {
+                    out.push(Pre::NodeExists(*n));
+                }
+                out.push(Pre::NodeSlotNotPortal(*n));
+            }
+            Instr::SetEdgeAtt { e, .. } => {
+                if !upserted_edges.contains(e) {
+                    out.push(Pre::EdgeExists(*e));
+                }
+                out.push(Pre::EdgeSlotNotPortal(*e));
+            }
+            _ => {}
+        }
+    }
+    out
 }
 
 #[derive(Clone, Debug, PartialEq, Eq, Serialize, Deserialize)]
@@ -229,6 +279,14 @@ pub fn cond_holds(pre: &AState, w: u8, c: &MatchCond) -> bool {
         MatchCond::Never => false,
         MatchCond::NodeExists(n) => st.nodes.contains_key(n),
         MatchCond::NodeHasType(n, t) => st.nodes.get(n) == Some(t),
+        MatchCond::Guarded(pres) => pres.iter().all(|p| match p {
+            Pre::NodeExists(n) => st.nodes.contains_key(n),
+            Pre::EdgeExists(e) => st.edges.contains_key(e),
+            Pre::EdgeIs { e, from } => st.edges.get(e).map(|r| r.from) == Some(*from),
+            Pre::NodeIsolatedExcept { n, edges } => st.edges.iter().all(|(e, r)| (r.from != *n && r.to != *n) || edges.contains(e)),
+            Pre::NodeSlotNotPortal(n) => !matches!(st.natt.get(n), Some(AVal::Descend(_))),
+            Pre::EdgeSlotNotPortal(e) => !matches!(st.eatt.get(e), Some(AVal::Descend(_))),
+        }),
     }
 }
 
@@ -309,12 +367,25 @@ fn table_get(slot: u8, w: WarpId, scope: &NodeId) -> Option<Arc<Prog>> {
     g.as_ref()?.get(&(slot, w, *scope)).cloned()
 }
 
-fn real_cond(view: GraphView<'_>, c: &MatchCond) -> bool {
+pub fn real_cond(view: GraphView<'_>, c: &MatchCond) -> bool {
     match c {
         MatchCond::Always => true,
         MatchCond::Never => false,
         MatchCond::NodeExists(n) => view.node(&node_id(*n)).is_some(),
         MatchCond::NodeHasType(n, t) => view.node(&node_id(*n)).map(|r| r.ty) == Some(type_id(*t)),
+        MatchCond::Guarded(pres) => pres.iter().all(|p| match p {
+            Pre::NodeExists(n) => view.node(&node_id(*n)).is_some(),
+            Pre::EdgeExists(e) => view.has_edge(&edge_id(*e)),
+            Pre::EdgeIs { e, from } => view.edges_from(&node_id(*from)).any(|r| r.id == edge_id(*e)),
+            Pre::NodeIsolatedExcept { n, edges } => (0..N_NODES).all(|m| {
+                view.edges_from(&node_id(m)).all(|r| {
+                    let incident = m == *n || r.to == node_id(*n);
+                    !incident || edge_ix(&r.id).map(|e| edges.contains(&e)).unwrap_or(false)
+                })
+            }),
+            Pre::NodeSlotNotPortal(n) => !matches!(view.node_attachment(&node_id(*n)), Some(warp_core::AttachmentValue::Descend(_))),
+            Pre::EdgeSlotNotPortal(e) => !matches!(view.edge_attachment(&edge_id(*e)), Some(warp_core::AttachmentValue::Descend(_))),
+        }),
     }
 }
 
